@@ -10,6 +10,7 @@ import (
 	"sort"
 	"strings"
 	"sync"
+	"sync/atomic"
 	"testing"
 	"time"
 
@@ -355,6 +356,91 @@ func TestC16(t *testing.T) {
 			kinds[i] = strings.SplitN(o, ":", 2)[0]
 		}
 		rec.Case(strings.Join(ops, ","), nontrivial, cl, func() any { return map[string]any{"ops": ops} })
+	})
+}
+
+// TestC16ConcurrentExpiry: an entry expires (virtual clock), the zone changes, and then
+// several goroutines look the same name up at once: none of them may get the expired
+// answer (a logic race in the fast/slow path is not a data race, so the race detector
+// alone would not see it).
+func TestC16ConcurrentExpiry(t *testing.T) {
+	rec := ev.Get("C16")
+	defer runtime.GOMAXPROCS(runtime.GOMAXPROCS(0))
+	rapid.Check(t, func(t *rapid.T) {
+		var nowNS atomic.Int64
+		base := time.Date(2031, 1, 1, 0, 0, 0, 0, time.UTC)
+		ech.SetTimeNowForVerif(func() time.Time { return base.Add(time.Duration(nowNS.Load())) })
+		defer ech.SetTimeNowForVerif(nil)
+		z := dnsfx.NewZone()
+		ttl := uint32(rapid.SampledFrom([]int{1, 5, 30, 300}).Draw(t, "ttl"))
+		g := &zoneGen{t: t, z: z, ttl: func() uint32 { return ttl }}
+		name := "x.example"
+		populate := func() {
+			z.Lock()
+			defer z.Unlock()
+			z.Version++
+			z.A, z.AAAA, z.HTTPS = map[string][]dnsfx.ZRec{}, map[string][]dnsfx.ZRec{}, map[string][]dnsfx.ZRec{}
+			g.addrs(name, "a", 1)
+			g.addrs("t1.example", "t1", 1)
+			g.service(name, "svc")
+		}
+		populate()
+		ng := rapid.IntRange(2, 16).Draw(t, "goroutines")
+		runtime.GOMAXPROCS([]int{2, 4, 8, 16}[rapid.IntRange(0, 3).Draw(t, "gomaxprocs")])
+		rounds := rapid.IntRange(1, 3).Draw(t, "rounds")
+		adv := make([]time.Duration, rounds)
+		for i := range adv {
+			// empty answers are kept for 300 s: go past both the record TTL and the negative TTL
+			adv[i] = time.Duration(max(ttl, 300))*time.Second + time.Duration(rapid.IntRange(0, 2).Draw(t, "past"))*time.Second
+		}
+		var viol string
+		withZoneServer(z, nil, func(url string, srv *dnsfx.Server) {
+			r, err := ech.NewResolver(url)
+			if err != nil {
+				t.Fatalf("harness: %v", err)
+			}
+			resolveOK := func() (ech.ResolveResult, error) {
+				ctx, cancel := context.WithTimeout(context.Background(), 30*time.Second)
+				defer cancel()
+				return r.Resolve(ctx, name)
+			}
+			if _, err := resolveOK(); err != nil { // fills the cache with version 1
+				viol = fmt.Sprintf("first resolve: %v", err)
+				return
+			}
+			for round := 0; round < rounds && viol == ""; round++ {
+				nowNS.Add(int64(adv[round])) // every cached answer has expired
+				populate()                   // and the zone has new data
+				z.Lock()
+				want := dnsfx.RefResolve(z, name)
+				version := z.Version
+				z.Unlock()
+				var mu sync.Mutex
+				var wg sync.WaitGroup
+				start := make(chan struct{})
+				for i := 0; i < ng; i++ {
+					wg.Add(1)
+					go func() {
+						defer wg.Done()
+						<-start
+						res, err := resolveOK()
+						if d := compareOutcome(res, err, want); d != "" {
+							mu.Lock()
+							viol = fmt.Sprintf("round %d (zone version %d, %d concurrent lookups after expiry): %s", round, version, ng, d)
+							mu.Unlock()
+						}
+					}()
+				}
+				close(start)
+				wg.Wait()
+			}
+		})
+		if viol != "" {
+			ev.Violation(t, "C16", map[string]any{"zone": z.Describe(), "goroutines": ng, "ttl": ttl}, "concurrent lookups after expiry: %s", viol)
+		}
+		rec.Case(fmt.Sprintf("cexp|%d|%d|%d", ng, ttl, rounds), true, []string{"concurrent_expiry"}, func() any {
+			return map[string]any{"kind": "concurrent_expiry", "goroutines": ng, "ttl": ttl, "rounds": rounds}
+		})
 	})
 }
 
